@@ -430,17 +430,17 @@ func main() {
 		},
 		Components: map[string]string{
 			"tkn20 Setup, KeyGen, Encrypt, Decrypt, Policy parser/printer/extraction, CouldDecrypt, all marshalers": "real",
-			"authority -> parties, encryptor -> holders": "stub: simulated transport (marshal / print, re-parse, corrupt, misdeliver)",
-			"holder key storage":                          "stub: simulated disk",
-			"policy semantics":                            "model: AST evaluator",
-			"io.Reader arguments and crypto/rand.Reader":  "stub: deterministic entropy device",
+			"authority -> parties, encryptor -> holders":                                                            "stub: simulated transport (marshal / print, re-parse, corrupt, misdeliver)",
+			"holder key storage":                         "stub: simulated disk",
+			"policy semantics":                           "model: AST evaluator",
+			"io.Reader arguments and crypto/rand.Reader": "stub: deterministic entropy device",
 		},
-		ProbeNames: []string{"holder-satisfies", "holder-does-not-satisfy"},
-		Directed:   directed,
-		Gen:        gen,
-		Exec:       exec,
-		Runs:       map[string]int{"quick": 1600, "thorough": 40000},
-		WallCap:    map[string]time.Duration{"quick": 110 * time.Second, "thorough": 18 * time.Minute},
+		ProbeNames:  []string{"holder-satisfies", "holder-does-not-satisfy"},
+		Directed:    directed,
+		Gen:         gen,
+		Exec:        exec,
+		Runs:        map[string]int{"quick": 1600, "thorough": 40000},
+		WallCap:     map[string]time.Duration{"quick": 110 * time.Second, "thorough": 18 * time.Minute},
 		CallTimeout: 180 * time.Second,
 	})
 }
